@@ -1,0 +1,26 @@
+//go:build verif
+
+package verifx
+
+import (
+	"github.com/junioryono/godi/v4/internal/graph"
+	"github.com/junioryono/godi/v4/internal/reflection"
+)
+
+type (
+	DependencyGraph         = graph.DependencyGraph
+	NodeKey                 = graph.NodeKey
+	Node                    = graph.Node
+	GraphProvider           = graph.Provider
+	CircularDependencyError = graph.CircularDependencyError
+
+	Analyzer           = reflection.Analyzer
+	ConstructorInfo    = reflection.ConstructorInfo
+	ConstructorInvoker = reflection.ConstructorInvoker
+	Dependency         = reflection.Dependency
+	DependencyResolver = reflection.DependencyResolver
+)
+
+func NewDependencyGraph() *DependencyGraph { return graph.NewDependencyGraph() }
+
+func NewAnalyzer() *Analyzer { return reflection.New() }
